@@ -11,6 +11,7 @@ Conj2(S1, S2) == {<<"conj", <<x, y>> >> : x \in S1, y \in S2}
 Conde2(S1, S2) == {<<"conde", << <<x>>, <<y>> >> >> : x \in S1, y \in S2}
 Cond2(S1, S2) == {<<"cond", << <<x>>, <<y>> >> >> : x \in S1, y \in S2}
 Fresh1(S1) == {<<"fresh", <<>>, <<x>> >> : x \in S1}
+Conde3(S1, S2, S3) == {<<"conde", << <<x>>, <<y>>, <<z>> >> >> : x \in S1, y \in S2, z \in S3}
 
 (* BFS trees *)
 B1 == L0 \cup Conj2(L0, L0) \cup Conde2(L0, L0) \cup Fresh1(L0)
@@ -18,7 +19,9 @@ B2 == B1 \cup Conj2(B1, B1) \cup Conde2(B1, B1) \cup Fresh1(B1)
      \cup {<<"conde", << <<x, y>>, <<z>> >> >> : x \in {A, B}, y \in {A, C}, z \in B1}
      \cup {<<"rawdisj", x, y>> : x \in B1, y \in L0} \cup {<<"rawconj", x, y>> : x \in L0, y \in B1}
      \cup {<<"disj", <<x, y, z>> >> : x \in {A, <<"fail">>}, y \in B1, z \in {C}}
-BfsSmall == B1 \cup Conj2(B1, L0) \cup Conde2(L0, B1)
+     \cup Conde3(L0, L0, L0) \cup Conde3({A}, B1, {B, <<"succeed">>})
+BfsSmall == B1 \cup Conj2(B1, L0) \cup Conde2(L0, B1) \cup Conde2(B1, L0) \cup Conde3(L0, L0, L0)
+            \cup Conj2(L0, Conde3({A, <<"succeed">>}, L0, {B, <<"succeed">>}))
 
 (* DFS trees: the same shapes with cond, wrapped in dfs { } *)
 D1 == L0 \cup Conj2(L0, L0) \cup Cond2(L0, L0) \cup Fresh1(L0)
